@@ -5,6 +5,11 @@ HERE = os.path.dirname(os.path.abspath(__file__))
 PY = '/venv/bin/python -B /verif/check.py'
 
 CLAIMED = {
+ 'C17': dict(
+    technique='deterministic simulation: seeded construction histories with look-alike/invalid/unhashable value and environment faults against a reference memo-table model; threaded fraction under the baton scheduler',
+    text='Seeded search over histories of BeartypeConf constructions (valid, invalid, equal-but-differently-typed, unhashable values; BEARTYPE_IS_COLOR faults; two threads under the scheduler in 20% of runs) checked step by step against a small executable reference model of validation and memoisation. Evidence, not proof.',
+    note='Trusted: the reference validate()/key model (my reading of the documented option rules), in-place state restore between runs (violations re-confirmed in a pristine fork).',
+    design='5/C17'),
  'C15': dict(
     technique='deterministic simulation: baton-passing thread scheduler over real threads (sys.settrace line pre-emption, simulated locks), seeded schedule search, sequential-order oracle',
     text='Seeded search over line-level interleavings of 2-4 threads issuing public-API operations; outcomes must equal those of some sequential order, singletons must be shared, no deadlock/livelock, process-global hooks restored at quiescence. Evidence, not proof: a sample of schedules.',
@@ -22,7 +27,7 @@ NOT_APPLICABLE = {
 }
 
 PENDING = {k: 'not claimed yet: the simulation engine for this property (DESIGN.md section 5) is not built at this commit' for k in
-           ['C01','C02','C03','C06','C07','C08','C09','C10','C11','C14','C16','C17','C18']}
+           ['C01','C02','C03','C06','C07','C08','C09','C10','C11','C14','C16','C18']}
 
 def main():
     checks = []
